@@ -138,8 +138,12 @@ Eval vm_compute in (length cases, length bad, map fst (firstn 3 bad)).
     br = res["bore_rows"]
     if br[1:] != [list(c) for c in coords]:
         chk.violation("borefield-rows", {"coords": coords[:5]}, {"rows": br[1:6]}, "exactly the selected coordinates, in order")
-    gr = res["g_rows"]
-    if [r[0] for r in gr[1:]] != gfunc["x"] or [r[1] for r in gr[1:]] != gfunc["y"] or [r[2] for r in gr[1:]] != gfunc["ybhw"]:
+    gr = res.get("g_rows")
+    if gr is None:
+        # the row builder no longer takes the curve from grab_g_function (the stub design object offers nothing else): the written files of the
+        # real designs below are compared with the curve used in the simulation and with the from-scratch reference
+        chk.broken.append({"name": "correspondence C19: get_g_function_data does not build its rows from grab_g_function (the curve used in the simulation)", "detail": res.get("g_rows_error", "")})
+    elif [r[0] for r in gr[1:]] != gfunc["x"] or [r[1] for r in gr[1:]] != gfunc["y"] or [r[2] for r in gr[1:]] != gfunc["ybhw"]:
         chk.violation("gfunction-rows", {"x": gfunc["x"][:5]}, {"rows": gr[1:4]}, "the rows of the curve used in the simulation")
     chk.cov["evaluations"] += 8760 + len(coords) + len(gx)
 
@@ -169,13 +173,13 @@ Eval vm_compute in (length cases, length bad, map fst (firstn 3 bad)).
         with open(os.path.join(od, "Loadings.csv")) as f:
             rows = list(csv.reader(f))[1:]
         base = datetime.datetime(2019, 1, 1)
-        for i, row in enumerate(rows):
+        if len(rows) != 8760:
+            chk.violation("loadings-csv", {"cfg": r["cfg"]}, {"rows": len(rows)}, "8760 rows: one for every hour of the year of loads that was given")
+        for i, row in enumerate(rows[:len(want)]):
             t = base + datetime.timedelta(hours=i)
             if [int(row[0]), int(row[1]), int(row[2]), int(row[3])] != [t.month, t.day, t.hour + 1, i] or float(row[4]) != float(want[i]):
                 chk.violation("loadings-csv", {"cfg": r["cfg"], "row": i}, {"row": row}, f"label {[t.month, t.day, t.hour+1, i]} and load {want[i]}")
                 break
-        if len(rows) != 8760:
-            chk.violation("loadings-csv", {"cfg": r["cfg"]}, {"rows": len(rows)}, "8760 rows")
         with open(os.path.join(od, "BoreFieldData.csv")) as f:
             brow = [[float(a), float(b)] for a, b in list(csv.reader(f))[1:]]
         if brow != r["coords"]:
